@@ -529,6 +529,15 @@ func c12Run(t *testing.T, cfg c12Config) c12Outcome {
 					fail(scen+":echo", "%v", err)
 				}
 			}
+			// the in-tree server never sets Retire Prior To: every in-order history of a conformant
+			// peer at the boundary, on a real connIDManager configured with the value seen on the wire
+			lim := adv.get(tpCIDLimit, 2)
+			st, tr, bad := quic.VerifC12CIDBoundary(lim, true)
+			if bad != "" {
+				fail(scen+":rejected-within-advertised-limit", "active_connection_id_limit=%d on the wire: %s", lim, bad)
+			}
+			out.class = fmt.Sprintf("%s limit=%d boundary-histories: %d states", scen, lim, st)
+			_ = tr
 		case "datagram":
 			if adv.get(tpDatagram, 0) == 0 {
 				out.class = "n/a: datagrams not advertised"
